@@ -172,7 +172,12 @@ func tTag(c context, s []byte) (context, int) {
 				ret.enclosing = "*"
 			}
 		}
-		if specialElements[c.element.name] {
+		if specialElements[c.element.name] && c.element.continued {
+			// e.g. `<script_x>` or `<script{{if .C}}_x{{end}}>`: only a prefix of the name is
+			// known. The element is not, or not on every path, the special element that the
+			// prefix names, so its content cannot be followed.
+			ret.enclosing = "*"
+		} else if specialElements[c.element.name] {
 			ret.state = stateSpecialElementBody
 		}
 		if allVoid {
